@@ -113,6 +113,12 @@ claim("C12", "fault_enumeration", "shutdown",
       "Held on the executions of the run. The application services output channels as documented (AsyncClose: keep draining; PartitionConsumer.Close: no reading required). Goroutine leaks are not judged. Close blocking under an unfired count/byte flush trigger is a C01 known finding and not re-generated here.",
       "DESIGN.md §7 C12")
 
+claim("C14", "exploration", "broker",
+      "runtime monitor of the real Broker against a raw frame server (unix socket): every call carries a token that the server echoes into its typed response, per-connection event log of frames received / sent and of requests received but not yet answered; oracles for crosstalk, delivery of mismatching answers, success after a connection fault, stuck calls (quiescence) and the in-flight bound; race detector",
+      "180 enumerated core cases (each single-fault server behaviour x MaxOpenRequests x callers, pile-up cases) plus 300 (quick) / 10 000 (thorough) seeded cases: 1-16 caller goroutines, nine request kinds (incl. flexible-header and acks=0), MaxOpenRequests in {1,2,3,5}, server behaviour words over answer / delay / hold-until-k-pending / swapped / wrong id / stale id / truncated header or body / short or oversize length / bad tag / close / silence, Close and re-Open racing with calls.",
+      "Held on the executions of the run apart from the known in-flight finding (max+1). An i/o timeout without injected silence is inconclusive; Close itself hanging is C12's clause.",
+      "DESIGN.md §7 C14")
+
 def main():
     props = [json.loads(l) for l in open(os.path.join(HERE, "properties.jsonl"))]
     ids = [p["id"] for p in props]
